@@ -11,7 +11,7 @@ CHECKS = {
     'C01': dict(
         text="Runtime oracle on the real solver: every potential/voltage/current/power reported for thousands of generated well-posed "
              "networks is compared with an exact (rational-arithmetic) sparse-tableau solution in the documented reference directions, "
-             "plus a Kirchhoff/potential-difference certificate on the reported numbers. Exploration: reach comes from topology, kind, "
+             "plus a Kirchhoff/potential-difference certificate on the reported numbers; every network is solved a second time with permuted node / source numberings (the mapper extension point). Exploration: reach comes from topology, kind, "
              "label and value diversity; nothing outside the generated executions is claimed.",
         design='5/C01', technique='runtime oracle vs exact reference model + KCL certificate on observed results'),
     'C02': dict(
@@ -34,7 +34,7 @@ CHECKS = {
         text="Runtime oracle on open_circuit_impedance / element_impedance / short_circuit_current / Thevenin-Norton objects / Circuit.impedance "
              "sweeps: compared with a unit-current injection into the exactly solved deactivated reference network, for every sampled ordered "
              "node pair and element of generated networks (incl. ideal voltage sources away from the port, nodes and node groups hanging on open "
-             "branches); relation monitors on the library's own outputs (symmetry, re-referencing, exact zeros, Isc=Voc/Zth, load test through "
+             "branches); relation monitors on the library's own outputs (symmetry, re-referencing, permuted node numbering, exact zeros, Isc=Voc/Zth, load test through "
              "the library's own solver).",
         design='5/C06', technique='runtime oracle vs exact reference + relation monitors between observed executions'),
     'C04': dict(
@@ -44,19 +44,19 @@ CHECKS = {
         design='5/C04', technique='metamorphic relation monitor over pairs/sums of observed executions'),
     'C05': dict(
         text="Invariant monitor on every kind of solution object (network, DC, complex peak/RMS, time-domain on a grid, transient sample-wise): "
-             "Tellegen power balance in the stated convention, P against the same object's V and I, resistor/inductor/capacitor sign rules.",
+             "Tellegen power balance in the stated convention, P against the same object's V and I, resistor/inductor/capacitor sign rules; power lines of the one- and two-sided spectrum (definition, conjugate symmetry, +w and -w lines add up to the average power).",
         design='5/C05', technique='invariant monitor (power balance, definition and sign rules) on observed solutions'),
     'C10': dict(
         text="Runtime oracle on the nodal state-space model: for every published source, every node potential / element voltage / element current "
              "row and a 7-point frequency sweep incl. w=0, C(jwI-A)^-1B+D is compared with the exact phasor response of the reference circuit to that "
-             "source alone; state dimension, state identity rows, published source list and the circuit-level wrapper are checked; hostile names.",
+             "source alone; state dimension, state identity rows, published source list and the circuit-level wrapper are checked; hostile names; every model is also built with permuted node / source numberings and judged the same way.",
         design='5/C10', technique='runtime oracle: transfer function of the observed model vs exact reference responses'),
     'C11': dict(
         text="Invariant monitor on every state matrix produced for generated positive-element circuits (largest eigenvalue of W A + A^T W, spectral "
              "abscissa) and trace monitor on transient runs (stored energy non-increasing after the inputs returned to zero).",
         design='5/C11', technique='invariant monitor on hooked state matrices + energy trace monitor'),
     'C12': dict(
-        text="Trace monitors on TransientSolution runs with per-source different piecewise-linear inputs: rest start, KCL at every node and sample, "
+        text="Trace monitors on TransientSolution runs with per-source different piecewise-linear inputs (incl. inputs already on at the first sample, time axes not starting at 0, integer-typed grids): rest start, KCL at every node and sample, "
              "sources follow their inputs, Ohm's law, agreement of the grids h and h/2, Simpson integral form of C dv/dt and L di/dt, an independent "
              "trapezoidal companion-model reference (Richardson), settling to the exact DC solution.",
         design='5/C12', technique='trace monitors + independent companion-model reference over recorded waveforms'),
@@ -76,7 +76,7 @@ CHECKS = {
              "matched as clusters against an independently computed set, every spectral line and the time functions on a grid are compared with "
              "exact single-frequency reference phasors (periodic sources through the true Fourier coefficients of their own waveform); KCL at every "
              "instant, additivity over sources and waveform reproduction (Parseval tail bound) are monitored; strata with exact and rounding-only "
-             "frequency coincidences.",
+             "frequency coincidences; the frequency_components -> transform -> solver pipeline is also run with non-default resolutions.",
         design='5/C09', technique='runtime oracle vs exact per-frequency references + trace relations on time functions'),
     'C18': dict(
         text="Runtime oracle on str(ScientificFloat)/str(ScientificComplex)/Display.print_*: an independent exact-decimal parser recovers sign, "
@@ -108,7 +108,7 @@ CHECKS = {
         text="Runtime oracle on circuit_translator / SchematicDiagramParser: drawing programs (embedded random circuits, wire trees, labels, ground, "
              "reverse flags, degree/sine phase input) are built with the library's own symbols and translated; an independent union-find model on the "
              "program's grid coordinates gives the depicted netlist; components are compared by id/kind/value with a node bijection, labels and ground "
-             "by name, and the solved circuit with the exact solution of the depicted netlist; each program also under rotation, translation, rescaling, "
+             "by name (incl. SchematicDiagramParser.ground_label), and the solved circuit with the exact solution of the depicted netlist (network_translator too, for its symbol subset); each program also under rotation, translation, rescaling, "
              "wire splitting and reordering. One rounding-boundary defect is recorded as a known finding.",
         design='5/C13', technique='runtime oracle: independent turtle/union-find model of the drawing program + metamorphic transforms'),
     'C14': dict(
